@@ -57,7 +57,8 @@ def run(chk, tier, seed):
     exc_sets = [[], [a], [txt], [hid]]
     pinc_sets = [[], [(star,)], [(('gs',), ('sep',)) + txt], [d + (('sep',),) + (star,)], [(star, ('sep',), star)], [txt], [(('gs',), ('sep',), L('a'))]]
     dir_sets = [([], []), ([d], []), ([], [d]), ([e], []), ([(L('.'), star)], []), ([a], [])]
-    pdir_sets = [([], []), ([d + (('sep',),) + e], []), ([(('gs',), ('sep',)) + e], []), ([d], []), ([(star, ('sep',), L('a'))], [])]
+    pdir_sets = [([], []), ([d + (('sep',),) + e], []), ([(('gs',), ('sep',)) + e], []), ([d], []), ([(star, ('sep',), L('a'))], []),
+                 ([d + (('sep',),)], []), ([(('gs',), ('sep',)) + e + (('sep',),)], []), ([], [d + (('sep',),)])]      # exclude patterns that end in a separator: directories are shown with one
     bits = [WM.RV, WM.HD, WM.SL, WM.X, WM.G, WM.E, WM.I, WM.M]
     flagsets = [0, WM.RV, WM.RV | WM.HD, WM.RV | WM.SL, WM.RV | WM.HD | WM.SL, WM.RV | WM.E, WM.RV | WM.I, WM.RV | WM.M | WM.E, WM.HD]
     cases = []
